@@ -1,1 +1,164 @@
-/-! Property theorems for C20 (statements + proofs by reference to `Proof/`). Not built yet. -/
+import GraafVerif.Proof.ReprEL
+import GraafVerif.Proof.ReprAL
+import GraafVerif.Proof.ReprW
+import GraafVerif.Proof.ReprAM
+import GraafVerif.Proof.ReprMX
+import GraafVerif.Proof.ReprCmp
+/-!
+# C20 — equality, ordering, hashing and cloning respect the abstract digraph
+
+The derived `PartialEq / Eq / Ord / Hash / Clone` of the five structs are structural on the
+fields, so on the model: `==` is Lean `=` of the model structures (`DecidableEq`), `cmp` is the
+lexicographic `X.cmp` of `Model/ReprEqHist.lean`, a hash is *any* function of the structure,
+`clone` is the identity on values.  With that reading the property is:
+
+* `Determined`: two well-formed digraphs of one representation are equal **exactly when** their
+  abstract digraphs `(V, A, w)` are equal (sorted-container extensionality; for the matrix:
+  bit-wise extensionality, no residue bit at or above `order²`, block count fixed by the order);
+* `Converges`: whatever two histories (from whatever well-formed starts) built them — if the
+  abstract results agree, the structures are identical, hence `==`, equal hashes, `cmp = Equal`;
+* `cmp a b = Equal ↔ a = b`;
+* named corollaries: `remove_arc` after `add_arc` of an absent arc restores the identical
+  structure (no residue bit, no leftover row entry; on `AdjacencyMap` when both endpoints already
+  are vertices — otherwise the vertices stay, which is the abstract behaviour too); toggling
+  twice restores the matrix.
+
+Clone independence ("mutating either never changes the other") is value semantics in the model
+(`clone = id`, states are immutable values) and is checked on the real code by the `eq_pair` tie.
+-/
+namespace GraafVerif.C20
+open GraafVerif.ReprSpec GraafVerif.Repr
+
+/-- Equality of structures = equality of the abstract digraphs. -/
+def Determined {σ ω : Type} (WF : σ → Prop) (abs : σ → SpecState ω) : Prop :=
+  ∀ d₁ d₂ : σ, WF d₁ → WF d₂ → (abs d₁ = abs d₂ ↔ d₁ = d₂)
+
+/-- Histories with the same abstract result give identical structures. -/
+def Converges {σ ο ω : Type} (WF : σ → Prop) (abs : σ → SpecState ω) (step : σ → ο → σ × Out)
+    (sstep : SpecState ω → ο → SpecState ω × Out) : Prop :=
+  ∀ (d₁ d₂ : σ), WF d₁ → WF d₂ → ∀ ops₁ ops₂ : List ο,
+    (run sstep (abs d₁) ops₁).1 = (run sstep (abs d₂) ops₂).1 →
+    (run step d₁ ops₁).1 = (run step d₂ ops₂).1
+
+/-- Full statement of C20 on the models. -/
+def Statement : Prop :=
+  (Determined AdjList.WF AdjList.abs ∧ Converges AdjList.WF AdjList.abs AdjList.step (specStep .fixed) ∧
+    ∀ a b : AdjList, a.cmp b = .eq ↔ a = b) ∧
+  (Determined AdjMap.WF AdjMap.abs ∧ Converges AdjMap.WF AdjMap.abs AdjMap.step (specStep .growing) ∧
+    ∀ a b : AdjMap, a.cmp b = .eq ↔ a = b) ∧
+  (Determined AdjMatrix.WF AdjMatrix.abs ∧ Converges AdjMatrix.WF AdjMatrix.abs AdjMatrix.step specStepMx ∧
+    ∀ a b : AdjMatrix, a.cmp b = .eq ↔ a = b) ∧
+  (Determined EdgeList.WF EdgeList.abs ∧ Converges EdgeList.WF EdgeList.abs EdgeList.step (specStep .fixed) ∧
+    ∀ a b : EdgeList, a.cmp b = .eq ↔ a = b) ∧
+  (Determined AdjListW.WF AdjListW.abs ∧ Converges AdjListW.WF AdjListW.abs AdjListW.step (specStep .fixed) ∧
+    ∀ a b : AdjListW, a.cmp b = .eq ↔ a = b)
+
+theorem adjList_determined : Determined AdjList.WF AdjList.abs := AdjList.abs_injective
+theorem adjMap_determined : Determined AdjMap.WF AdjMap.abs := AdjMap.abs_injective
+theorem adjMatrix_determined : Determined AdjMatrix.WF AdjMatrix.abs := AdjMatrix.abs_injective
+theorem edgeList_determined : Determined EdgeList.WF EdgeList.abs := EdgeList.abs_injective
+theorem adjListW_determined : Determined AdjListW.WF AdjListW.abs := AdjListW.abs_injective
+
+theorem adjList_converges : Converges AdjList.WF AdjList.abs AdjList.step (specStep .fixed) :=
+  converge_gen _ _ _ _ AdjList.run_refines AdjList.abs_injective
+theorem adjMap_converges : Converges AdjMap.WF AdjMap.abs AdjMap.step (specStep .growing) :=
+  converge_gen _ _ _ _ AdjMap.run_refines AdjMap.abs_injective
+theorem adjMatrix_converges : Converges AdjMatrix.WF AdjMatrix.abs AdjMatrix.step specStepMx :=
+  converge_gen _ _ _ _ AdjMatrix.run_refines AdjMatrix.abs_injective
+theorem edgeList_converges : Converges EdgeList.WF EdgeList.abs EdgeList.step (specStep .fixed) :=
+  converge_gen _ _ _ _ EdgeList.run_refines EdgeList.abs_injective
+theorem adjListW_converges : Converges AdjListW.WF AdjListW.abs AdjListW.step (specStep .fixed) :=
+  converge_gen _ _ _ _ AdjListW.run_refines AdjListW.abs_injective
+
+theorem statement : Statement :=
+  ⟨⟨adjList_determined, adjList_converges, AdjList.cmp_eq_iff⟩,
+   ⟨adjMap_determined, adjMap_converges, AdjMap.cmp_eq_iff⟩,
+   ⟨adjMatrix_determined, adjMatrix_converges, AdjMatrix.cmp_eq_iff⟩,
+   ⟨edgeList_determined, edgeList_converges, EdgeList.cmp_eq_iff⟩,
+   ⟨adjListW_determined, adjListW_converges, AdjListW.cmp_eq_iff⟩⟩
+
+/-- Equal digraphs have equal hashes, for ANY hash that is a function of the structure
+(what `#[derive(Hash)]` is), and compare `Equal`. -/
+theorem equal_hash_and_cmp {σ H : Type} (hash : σ → H) (cmp : σ → σ → Ordering)
+    (hcmp : ∀ a b, cmp a b = .eq ↔ a = b) (a b : σ) (h : a = b) : hash a = hash b ∧ cmp a b = .eq :=
+  ⟨congrArg hash h, (hcmp a b).mpr h⟩
+
+/-! ## `remove_arc` after `add_arc` restores; toggling twice restores -/
+
+theorem adjList_remove_after_add_restores (d : AdjList) (h : d.WF) (u v : Nat)
+    (hok : rejected .fixed d.abs u v = false) (habs : d.hasArc u v = false) :
+    (run AdjList.step d [.add u v (), .rem u v]).1 = d := by
+  have := AdjList.run_refines [.add u v (), .rem u v] d h
+  apply (AdjList.abs_injective _ _ this.1 h).mp
+  rw [this.2.1]
+  exact spec_remove_after_add _ _ _ _ _ hok (by simp [AdjList.abs, habs]) (by intro e; cases e)
+
+theorem edgeList_remove_after_add_restores (d : EdgeList) (h : d.WF) (u v : Nat)
+    (hok : rejected .fixed d.abs u v = false) (habs : d.hasArc u v = false) :
+    (run EdgeList.step d [.add u v (), .rem u v]).1 = d := by
+  have := EdgeList.run_refines [.add u v (), .rem u v] d h
+  apply (EdgeList.abs_injective _ _ this.1 h).mp
+  rw [this.2.1]
+  exact spec_remove_after_add _ _ _ _ _ hok (by simp [EdgeList.abs, habs]) (by intro e; cases e)
+
+theorem adjListW_remove_after_add_restores (d : AdjListW) (h : d.WF) (u v : Nat) (w : Int)
+    (hok : rejected .fixed d.abs u v = false) (habs : d.arcWeight u v = none) :
+    (run AdjListW.step d [.add u v w, .rem u v]).1 = d := by
+  have := AdjListW.run_refines [.add u v w, .rem u v] d h
+  apply (AdjListW.abs_injective _ _ this.1 h).mp
+  rw [this.2.1]
+  exact spec_remove_after_add _ _ _ _ _ hok (by simp [AdjListW.abs, habs]) (by intro e; cases e)
+
+/-- On the map the endpoints must already be vertices (otherwise they are admitted and stay). -/
+theorem adjMap_remove_after_add_restores (d : AdjMap) (h : d.WF) (u v : Nat)
+    (hok : u ≠ v) (hu : d.abs.V u = true) (hv : d.abs.V v = true) (habs : d.hasArc u v = false) :
+    (run AdjMap.step d [.add u v (), .rem u v]).1 = d := by
+  have := AdjMap.run_refines [.add u v (), .rem u v] d h
+  apply (AdjMap.abs_injective _ _ this.1 h).mp
+  rw [this.2.1]
+  exact spec_remove_after_add _ _ _ _ _ (by rw [AdjMap.rejected_growing]; simp [hok])
+    (by simp [AdjMap.abs, habs]) (fun _ => ⟨hu, hv⟩)
+
+theorem adjMatrix_remove_after_add_restores (d : AdjMatrix) (h : d.WF) (u v : Nat)
+    (hok : rejected .fixed d.abs u v = false) (habs : d.hasArc u v = false) :
+    (run AdjMatrix.step d [.add u v, .rem u v]).1 = d := by
+  have := AdjMatrix.run_refines [.add u v, .rem u v] d h
+  apply (AdjMatrix.abs_injective _ _ this.1 h).mp
+  rw [this.2.1]
+  exact spec_remove_after_add .fixed _ u v () hok (by simp [AdjMatrix.abs, habs]) (by intro e; cases e)
+
+/-- `toggle` twice leaves no residue. -/
+theorem adjMatrix_toggle_twice_restores (d : AdjMatrix) (h : d.WF) (u v : Nat) :
+    (run AdjMatrix.step d [.tog u v, .tog u v]).1 = d := by
+  have := AdjMatrix.run_refines [.tog u v, .tog u v] d h
+  apply (AdjMatrix.abs_injective _ _ this.1 h).mp
+  rw [this.2.1]
+  exact spec_toggle_twice _ u v
+
+/-! ## Non-vacuity -/
+
+/-- Two different histories (different insertion order, a detour, a rejected call, a toggle
+pair) reach the identical matrix; a third one differs in one arc and compares `Greater`. -/
+example :
+    (do let d ← AdjMatrix.empty 9
+        let a := (run AdjMatrix.step d [.add 0 1, .add 7 8, .add 3 4, .rem 3 4]).1
+        let b := (run AdjMatrix.step d [.tog 7 8, .add 5 5, .tog 2 6, .add 0 1, .tog 2 6]).1
+        let c := (run AdjMatrix.step d [.add 0 1, .add 7 8, .add 8 7]).1
+        pure (decide (a = b), a.cmp b, decide (a = c), c.cmp a)) =
+      some (true, .eq, false, .gt) := by decide
+
+example :
+    (do let d ← AdjListW.empty 3
+        let a := (run AdjListW.step d [.add 0 1 5, .add 0 2 1, .add 0 1 2]).1
+        let b := (run AdjListW.step d [.add 0 2 1, .add 0 1 2]).1
+        let c := (run AdjListW.step d [.add 0 2 1, .add 0 1 3]).1
+        pure (decide (a = b), a.cmp b, decide (a = c), a.cmp c)) =
+      some (true, .eq, false, .lt) := by decide
+
+/-- On the map the admitted vertex stays: the structures differ exactly as the abstract digraphs do. -/
+example :
+    (do let d ← AdjMap.empty 2
+        let a := (run AdjMap.step d [.add 0 5 (), .rem 0 5]).1
+        pure (decide (a = d), a.vertices)) = some (false, [0, 1, 5]) := by decide
+
+end GraafVerif.C20
